@@ -60,24 +60,28 @@ def make_jobs(tier, seed):
     jobs, meta = [], {}
     k = 0
     for fz, spec in gen.properties(tier, seed):
+        # expensive fuzzers: several smaller jobs (the time-out is per job)
+        slow = "slow" in gen.FUZZERS[fz][3]
+        chunks = [seeds[i : i + 6] for i in range(0, len(seeds), 6)] if slow else [seeds]
         for exp in gen.EXPECTATIONS:
             src = gen.source(fz, spec, exp)
-            jid = f"p{k}"
-            job = {
-                "id": jid,
-                "modules": [{"name": "fuzz", "kind": "lib", "src": fuzz}, {"name": "m", "kind": "lib", "src": src}],
-                "test": {"module": "m", "name": "prop"},
-                "seeds": seeds,
-                "max_successes": ns,
-                "repeat": cfg["repeat"],
-                "threads": cfg["threads"],
-                "det_seeds": cfg["det_seeds"],
-                # C16 is stated for the default language version; C16_PLUTUS=v2 reproduces NOTES.md observation O1
-                "plutus": os.environ.get("C16_PLUTUS", "v3"),
-            }
-            jobs.append(job)
-            meta[jid] = dict(fuzzer=fz, spec=spec, expectation=exp, src=src, mode=model.MODES[exp])
-            k += 1
+            for chunk in chunks:
+                jid = f"p{k}"
+                job = {
+                    "id": jid,
+                    "modules": [{"name": "fuzz", "kind": "lib", "src": fuzz}, {"name": "m", "kind": "lib", "src": src}],
+                    "test": {"module": "m", "name": "prop"},
+                    "seeds": chunk,
+                    "max_successes": ns,
+                    "repeat": cfg["repeat"],
+                    "threads": cfg["threads"],
+                    "det_seeds": max(2, cfg["det_seeds"] // len(chunks)),
+                    # C16 is stated for the default language version; C16_PLUTUS=v2 reproduces NOTES.md observation O1
+                    "plutus": os.environ.get("C16_PLUTUS", "v3"),
+                }
+                jobs.append(job)
+                meta[jid] = dict(fuzzer=fz, spec=spec, expectation=exp, src=src, mode=model.MODES[exp])
+                k += 1
     # cross-process determinism: a copy of some jobs, run without in-process repetitions
     dups = []
     for i, j in enumerate(jobs):
@@ -255,6 +259,8 @@ def judge_job(T, m, res, all_results):
         # simplification (or anything else) did not finish in the generous per-job budget
         T.inconclusive["timeout"] += 1
         T.evaluations += 1
+        if len(T.samples) < 8:
+            T.samples.append({"timeout": True, "fuzzer": m["fuzzer"], "property": m["spec"], "expectation": m["expectation"]})
         return
     if "died" in res:
         T.evaluations += 1
